@@ -177,31 +177,62 @@ def run(chk):
 
 
 def disp_check(chk, it, m, f, d):
-    """calculate_displacements uses whole-array numpy arithmetic and slice stores; analysed structurally:
-    the three outputs are y1*U, y3*dU/dtheta, y3*(dU/dphi / sin(colatitude)), rows 0 and 2 of the solution."""
-    src = ast.unparse(f)
-    tree = f
-    assigns = {}
-    for nd in ast.walk(tree):
-        if isinstance(nd, ast.Assign) and len(nd.targets) == 1:
-            t = nd.targets[0]
-            key = ast.unparse(t.value) if isinstance(t, ast.Subscript) else ast.unparse(t)
-            assigns[key] = nd.value
-    def canon(e): return ast.unparse(e).replace(' ', '')
-    ok_rows = canon(assigns.get('y1', ast.parse('0').body[0].value)).startswith('tidal_solution_y[0,') and canon(assigns.get('y3', ast.parse('0').body[0].value)).startswith('tidal_solution_y[2,')
-    chk.ob('R15.2', 'displacements: y1, y3 are rows 0 and 2 of the radial solution', ok_rows, f'y1 = {canon(assigns.get("y1", ast.Constant(0)))}, y3 = {canon(assigns.get("y3", ast.Constant(0)))}', m.where(f), method='AST def-use')
-    # interpret the loop body with scalars standing for arrays
-    U = X.atom('U', 'complex'); Ut = X.atom('Ut', 'complex'); Up = X.atom('Up', 'complex'); th = X.atom('theta')
-    y1_ = X.atom('y1r', 'complex'); y3_ = X.atom('y3r', 'complex')
-    env = {'tidal_potential': U, 'tidal_potential_partial_theta': Ut, 'tidal_potential_partial_phi': Up, 'colatitude': th, 'y1_': y1_, 'y3_': y3_}
+    """calculate_displacements uses whole-array numpy arithmetic and slice stores.  It is evaluated statement by statement with scalars standing for
+    the arrays (row k of the radial solution is the atom y<k+1>; the radius index is dropped), independent of how locals are named: the three returned
+    arrays, in order, must be y1*U, y3*dU/dtheta, y3*(dU/dphi)/sin(colatitude)."""
     from ..core.interp import Frame
-    fr = Frame(m, f.name); fr.vars.update(env)
-    try:
-        fr.vars['potential_dphi_over_sin'] = it.eval(assigns['potential_dphi_over_sin'], fr)
-        outs = {k: it.eval(assigns[k], fr) for k in ('radial_displacement', 'polar_displacement', 'azimuthal_displacement')}
-    except (KeyError, AnalysisError) as ex:
-        raise AnalysisError(f'{m.where(f)}: displacement kernel has an unexpected shape: {ex}')
-    for nm, ref in (('radial_displacement', y1_ * U), ('polar_displacement', y3_ * Ut), ('azimuthal_displacement', y3_ * Up / X.fn('sin', th))):
-        ok = d.equal(outs[nm], ref)
-        chk.ob('R15.2', f'displacements: {nm} == ' + {'radial_displacement': 'y1 U', 'polar_displacement': 'y3 dU/dtheta', 'azimuthal_displacement': 'y3 dU/dphi / sin(theta)'}[nm],
-               ok, '' if ok else d.describe(outs[nm], ref), m.where(f), method='GF(p^2) PIT')
+    params = [a.arg for a in f.args.args]
+    U = X.atom('U', 'complex'); Ut = X.atom('Ut', 'complex'); Up = X.atom('Up', 'complex'); th = X.atom('theta')
+    by_name = {'tidal_potential': U, 'tidal_potential_partial_theta': Ut, 'tidal_potential_partial_phi': Up, 'colatitude': th}
+    sol = [p_ for p_ in params if p_ not in by_name and p_ != 'longitude']
+    if len(sol) != 1 or not all(k in params for k in by_name):
+        raise AnalysisError(f'{m.where(f)}: calculate_displacements parameters changed: {params}')
+    solname = sol[0]
+    ys = {k: X.atom(f'y{k + 1}r', 'complex') for k in range(6)}
+    fr = Frame(m, f.name); fr.vars.update(by_name)
+    rows = {}          # local name -> row index of the solution it aliases
+    outputs = {}       # local array name -> value stored into it
+    skipped = []
+
+    def row_of(e):
+        """tidal_solution_y[k, :] / tidal_solution_y[k] / tidal_solution_y[k, ri] -> k ;  <row alias>[ri] -> its k"""
+        if isinstance(e, ast.Subscript) and isinstance(e.value, ast.Name):
+            sl = e.slice.elts[0] if isinstance(e.slice, ast.Tuple) else e.slice
+            if e.value.id == solname and isinstance(sl, ast.Constant) and isinstance(sl.value, int):
+                return sl.value
+            if e.value.id in rows:
+                return rows[e.value.id]
+        return None
+
+    def walk(stmts):
+        for st in stmts:
+            if isinstance(st, ast.For):
+                walk(st.body); continue
+            if isinstance(st, ast.Return):
+                fr.vars['__return__'] = st.value; continue
+            if not (isinstance(st, ast.Assign) and len(st.targets) == 1):
+                continue
+            t = st.targets[0]
+            k = row_of(st.value)
+            if k is not None and isinstance(t, ast.Name):
+                rows[t.id] = k; fr.vars[t.id] = ys[k]; continue
+            try:
+                v = it.eval(st.value, fr)
+            except Exception:      # shapes, np.empty(...): not values
+                skipped.append(ast.unparse(st)[:60]); continue
+            if isinstance(t, ast.Name):
+                fr.vars[t.id] = v
+            elif isinstance(t, ast.Subscript) and isinstance(t.value, ast.Name):
+                outputs[t.value.id] = v
+    walk(f.body)
+    ret = fr.vars.get('__return__')
+    if not (isinstance(ret, ast.Tuple) and len(ret.elts) == 3 and all(isinstance(e_, ast.Name) for e_ in ret.elts)):
+        raise AnalysisError(f'{m.where(f)}: calculate_displacements does not return three named arrays')
+    names = ('radial displacement == y1 U', 'polar displacement == y3 dU/dtheta', 'azimuthal displacement == y3 dU/dphi / sin(theta)')
+    refs = (ys[0] * U, ys[2] * Ut, ys[2] * Up / X.fn('sin', th))
+    for e_, nm, ref in zip(ret.elts, names, refs):
+        got = outputs.get(e_.id)
+        if not isinstance(got, X.Node):
+            raise AnalysisError(f'{m.where(f)}: no value found for returned array `{e_.id}` (statements not evaluated: {skipped[:3]})')
+        ok = d.equal(got, ref)
+        chk.ob('R15.2', f'displacements: {nm} (rows 0 and 2 of the radial solution)', ok, '' if ok else d.describe(got, ref), m.where(f), method='GF(p^2) PIT')
